@@ -1077,6 +1077,7 @@ def eval_case(spec, la, strip: bool, codecs: List[str], want_model: bool = True,
             sf = "s" if strip else "k"
             inp = {"spec": spec, **cfg}
             res.req.append((tree_line("xml", tree, sf, "-"), "tie", hexs(out), {"op": "xml", **inp}))
+            res.req.append((tree_line("skelstrip", tree, sf), "thm", "ok", {"op": "skelstrip", **inp}))
             if in_domain:
                 res.req.append((tree_line("xmlcheck", tree, sf, "-"), "thm", "ok", {"op": "xmlcheck", **inp}))
                 res.req.append((tree_line("parse", tree, sf, hexs(out)), "spec", "ok", {"op": "parse", **inp}))
@@ -1443,7 +1444,8 @@ def flush_model(ctx: C.Ctx, results: List[CaseResult]) -> None:
         elif kind == "tie":
             ctx.disagree(inp["op"], inp, first_diff(exp, got), "model differs")
         elif kind == "thm":
-            ctx.disagree(inp["op"], inp, "theorem instance (Lean reader on the model output = skeleton)", got)
+            ctx.disagree(inp["op"], inp, "theorem instance (Lean reader on the model output = skeleton)"
+                         if inp["op"] == "xmlcheck" else "theorem instance " + inp["op"], got)
         elif inp["op"] in ("spectextpn", "textraw"):
             what = ("text output with showpageno differs from the Lean specification specTextPn of the layout tree"
                     if inp["op"] == "spectextpn" else
